@@ -94,7 +94,8 @@ class Ctx:
         for f in glob.glob(os.path.join(VERIF, "spec", "*.tla")) + glob.glob(os.path.join(VERIF, "spec", "*.cfg")):
             shutil.copy(f, d)
         e = dict(os.environ)
-        e["JAVA_TOOL_OPTIONS"] = "-Dfile.encoding=UTF-8 -Dstdout.encoding=UTF-8"
+        # a deep evaluation stack for the recursive operators (a StackOverflowError is an infrastructure failure, never a verdict)
+        e["JAVA_TOOL_OPTIONS"] = "-Dfile.encoding=UTF-8 -Dstdout.encoding=UTF-8 -Xss256m"
         if env:
             e.update({k: str(v) for k, v in env.items()})
         cmd = ["tlc", "-workers", str(workers), "-metadir", os.path.join(d, "meta"), "-config", cfg]
